@@ -28,6 +28,7 @@ type Obligation struct {
 	Result  *smt.Result
 	Status  string
 	Skolems []*smt.Term
+	LiveArrs []*smt.Term // versioned arrays occurring in the state at the obligation
 	Inputs  []*smt.Term
 }
 
